@@ -48,6 +48,8 @@ def kwargs_of(e):
         kw["file_name"] = e["fname"]
         kw["file_bytes"] = BYTES[e["fbytes"]]
         kw["mime_type"] = MIME[e["mime"]][0]
+        if e["fbytes"] == "":
+            kw["eof"] = True  # an empty final chunk closes the file
     return kw
 
 
@@ -334,6 +336,7 @@ def run(tier, pid="C10"):
         ("sr_mcB.cfg", {}, None),
         ("sr_expA.cfg", {}, ("dict", "summary")),
         ("sr_expX.cfg", {}, ("s2e",)),
+        ("sr_expXN.cfg", {}, ("s2e",)),  # events without a test id, whatever else they carry
     ]
     if tier == "quick":
         jobs.append(("sr_simC.cfg", dict(simulate=dict(num=150, depth=22), seed=rep.seed + 1, workers=4), ("dict", "summary")))
